@@ -22,7 +22,10 @@ func nominal(tag string, c *Class) bool {
 	acc := strings.HasSuffix(tag, "/accessor-named")
 	for i := range c.Methods {
 		m := &c.Methods[i]
-		if acc != m.AccessorNamed {
+		if acc != m.AccessorNamed || strings.HasSuffix(tag, "/modifiers-on-previous-line") != m.HeadSplit {
+			continue
+		}
+		if strings.HasSuffix(tag, "/typed-lambdas-in-body") && m.TypedLambdaParams == 0 {
 			continue
 		}
 		if acc && dv[0] == "conditionLines" {
@@ -69,7 +72,7 @@ func nominal(tag string, c *Class) bool {
 }
 
 func TestBoundaryPoints(t *testing.T) {
-	if BoundaryCount() < 200 || BoundaryCount() > 300 {
+	if BoundaryCount() < 200 || BoundaryCount() > 340 {
 		t.Fatalf("boundary points: %d", BoundaryCount())
 	}
 	t.Logf("%d boundary points", BoundaryCount())
